@@ -6,6 +6,7 @@ From PV Require Import Extract.RunC19.
 From PV Require Import Extract.RunC12.
 From PV Require Import Extract.RunC09.
 From PV Require Import Extract.RunC13.
+From PV Require Import Extract.RunC14.
 Import ListNotations.
 Local Open Scope N_scope.
 
@@ -84,5 +85,8 @@ Definition run (cmd : N) (arg : sx) : sx :=
   | 134 => run_c13_4 arg
   | 135 => run_c13_5 arg
   | 136 => run_c13_6 arg
+  | 140 => run_c14_0 arg
+  | 141 => run_c14_1 arg
+  | 142 => run_c14_2 arg
   | _ => L [A 999999]
   end.
